@@ -214,14 +214,13 @@ let show_outcome (r : value option res) : string =
   | Ok o -> "(ok " ^ show_opt_value o ^ ")"
   | other -> show_res (fun _ -> "") other
 
-(* ticks and depth side channels *)
+(* ticks and stdout side channels *)
 let take_side () : string =
   let st = !w_st in
   let t = String.concat "," (List.map string_of_z st.ticks) in
-  let d = int_of_nat st.maxdepth in
   let o = hex_of_str st.out in
-  w_st := { st with ticks = []; depth = O; maxdepth = O; out = [] };
-  Printf.sprintf " t=[%s] d=%d o=%s" t d o
+  w_st := { st with ticks = []; out = [] };
+  Printf.sprintf " t=[%s] o=%s" t o
 
 let get_inst (i : int) : instance =
   match Hashtbl.find_opt insts i with Some x -> x | None -> failwith "no such instance"
@@ -302,6 +301,19 @@ let handle (line : string) : string =
       let i = int_of_string i in
       let ((r, c), _) = eval_text !w_fs cwd efuel (str_of_string (hex_decode h)) (ctx_of i) in
       commit i c; let o = show_outcome r in o ^ take_side ()
+  | ["DEVAL"; i; h] ->
+      (* one expression through the depth-instrumented evaluator *)
+      let i = int_of_string i in
+      let c = ctx_of i in
+      let text = str_of_string (hex_decode h) in
+      (match parse_next c { lrest = text; lpos = (Npos XH, Npos XH); pcur = None; ploc = None } with
+       | (Ok (Some (SExpr e), _), c1) ->
+           let ((r, st), d) = deval_expr efuel e c1.c_inst.i_env c1.c_st (O, O) in
+           commit i { c1 with c_st = st };
+           let r' = (match r with Ok v -> Ok (Some v) | Err (k, l) -> Err (k, loc_or l (eloc e)) | Panic x -> Panic x | OutOfFuel -> OutOfFuel) in
+           let o = show_outcome r' in
+           o ^ take_side () ^ Printf.sprintf " d=%d" (int_of_nat (snd d))
+       | (other, c1) -> commit i c1; "(not-an-expression)")
   | ["PROG"; i; h] ->
       let i = int_of_string i in
       let ((_, c), trace) = eval_text !w_fs cwd efuel (str_of_string (hex_decode h)) (ctx_of i) in
